@@ -1,7 +1,7 @@
 (* C05 — Tree distances and segment decompositions match their definitions. *)
 From Coq Require Import List ZArith QArith Bool.
 Import ListNotations.
-From Navis Require Import model.Forest model.Dist model.Segments proofs.ForestWF proofs.RerootProofs proofs.DistProofs proofs.SegmentsProofs.
+From Navis Require Import model.Forest model.Dist model.Segments proofs.ForestWF proofs.RerootProofs proofs.DistProofs proofs.SegmentsProofs proofs.SegPartition.
 Open Scope Z_scope.
 
 (* distance to root = sum of edge lengths along the parent links *)
@@ -62,8 +62,20 @@ Theorem C05_shape_checker_sound : forall t segs s, shape_okb t segs = true -> In
     /\ forall i, In i (interior s) -> label_of t i = 3.
 Proof. exact shape_okb_sound. Qed.
 Print Assumptions C05_shape_checker_sound.
-(* the model's small segments are child->parent chains (that they cover every edge exactly once is
-   C05_break_segments_partition_partial: decided per output by the checker above, not yet proved for the model) *)
-Theorem C05_break_segments_are_chains_partial : forall t s, WF t -> In s (break_segments t) -> consecutive_ok t s = true.
+(* the model's small segments are child->parent chains ... *)
+Theorem C05_break_segments_are_chains : forall t s, WF t -> In s (break_segments t) -> consecutive_ok t s = true.
 Proof. exact break_segments_are_chains. Qed.
-Print Assumptions C05_break_segments_are_chains_partial.
+Print Assumptions C05_break_segments_are_chains.
+(* ... and, for EVERY well-formed forest, they pass the partition checker: every non-root node is the child end of exactly one
+   small segment, i.e. the decomposition covers every edge exactly once (proofs/SegPartition.v) *)
+Theorem C05_break_segments_partition : forall t, WF t -> partition_okb t (break_segments t) = true.
+Proof. exact break_segments_partition. Qed.
+Print Assumptions C05_break_segments_partition.
+Theorem C05_break_segments_cover_edges_once : forall t, WF t ->
+  (forall a b, In (a, b) (edges t) <-> In (a, b) (pairs_of (break_segments t))) /\ NoDup (map fst (pairs_of (break_segments t))).
+Proof.
+  intros t Hwf. pose proof (break_segments_partition t Hwf) as H. split.
+  - apply partition_pairs_are_edges; [apply (wf_nodup t Hwf) | exact H].
+  - apply (partition_okb_sound t _ (wf_nodup t Hwf) H).
+Qed.
+Print Assumptions C05_break_segments_cover_edges_once.
